@@ -22,7 +22,7 @@ from vlib import core, fraggen, fragrun
 MANIFEST_ENTRY = {
     "level_claimed": {"category": "proof",
         "text": "Stage 1 (straight-line programs over Nat/Int/Str/Bool: literals, names, + - * // %, comparisons, short-circuit and/or "
-                "with patched jumps, not, unary minus, definitions, print!, bare expression chunks; target 3.11): Lean compiler-correctness "
+                "with patched jumps, the two-branch if-expression (POP_JUMP_FORWARD_IF_FALSE / JUMP_FORWARD patching), not, unary minus, definitions, print!, bare expression chunks; target 3.11): Lean compiler-correctness "
                 "theorem for a transcription of the code generator against a model of the 3.11 evaluation loop and the Python-semantics "
                 "reading, for all programs of the fragment; the transcription is tied to codegen.rs instruction-for-instruction on every run. "
                 "The rest of the checked fragment (loops, functions, lambdas, lists, floats, patterns, other targets) is exercised only "
@@ -157,7 +157,7 @@ def run(ctx):
         if not m or not impl.startswith("(hir"):
             continue
         in_model += 1
-        if "defv" in impl and ("jumpIf" in impl or "binaryOp" in impl):
+        if "defv" in impl and ("jumpIf" in impl or "binaryOp" in impl or "popJumpIfFalse" in impl):
             nontrivial += 1
         vo = vm_outcome(m[2])
         if vo is None:
